@@ -117,8 +117,11 @@ namespace plan
         const Path &p = sc.nums[modn(v, sc.nums.size())];
         auto it = seen.find(ptext(p));
         if (it != seen.end())
-        {
-          l.t[it->second].first += c;
+        { // the same leaf again: half of the time it stays a term of its own in the text (`x0 - x1 - x0`), otherwise the coefficients are merged
+          if ((num ^ den) & 1)
+            l.t.push_back({c, p});
+          else
+            l.t[it->second].first += c;
           continue;
         }
         seen[ptext(p)] = l.t.size();
